@@ -32,6 +32,8 @@ def gen(rng, tier, index):
     plan["mode"] = "apply_to"
     plan["out_mode"] = "w"
     plan["idclass"] = "plain"
+    if plan["input_form"] == "objects":
+        plan["input_form"] = "paths"
     plan["inputs"] = [i for i in plan["inputs"] if "." not in i["stem"]][:5]
     k = 0
     while len(plan["inputs"]) < 2:
@@ -214,6 +216,13 @@ def run(plan, tier="quick") -> RunResult:
     else:
         T = len(ref_events)
         seqs = [[{"index": e[0], "kind": "kill"}] for e in ref_events]
+        if tier != "thorough":
+            # a sample of error points (thorough: every call)
+            for k in sorted({a % max(T, 1) for a in plan["second"]}):
+                e = ref_events[k]
+                names = simos.APPLICABLE_ERRNOS.get(e[1], ("ENOSPC", "EIO") if e[1] == "sql" else ())
+                if names:
+                    seqs.append([{"index": e[0], "kind": "oserror", "errno": names[plan["errnos"] % len(names)]}])
         if tier == "thorough":
             for e in ref_events:
                 kind = e[1]
